@@ -97,18 +97,26 @@ def comparison_sites(ctx, clause):
     src = g.field_nodes(p.find_class("Shaper"), "_instantiation_property")
     obs = []
     for q, operand in SITES:
-        f = p.func(q)
-        cmps = [x for x in walk_own(f.node) if isinstance(x, ast.Compare) and isinstance(x.ops[0], (ast.Eq, ast.NotEq))]
+        f = p.funcs.get(q)
+        if f is not None:
+            cands = [f]
+        else:
+            # the helper was renamed or folded away: any method of the same class may hold the comparison
+            cname = q.split(":")[1].split(".")[0]
+            c0 = p.find_class(cname)
+            cands = list(c0.methods.values())
+            f = c0.methods.get("__init__") or cands[0]
         hit = None
-        for c in cmps:
-            for o in [c.left] + list(c.comparators):
-                reached, _, _ = g.provenance(g.enode(o), src)
-                if reached:
-                    hit = (c, o)
+        for fc in cands:
+            for c in [x for x in walk_own(fc.node) if isinstance(x, ast.Compare) and isinstance(x.ops[0], (ast.Eq, ast.NotEq))]:
+                for o in [c.left] + list(c.comparators):
+                    reached, _, _ = g.provenance(g.enode(o), src)
+                    if reached:
+                        hit = (c, o)
         ok = hit is not None
-        obs.append(Ob(clause, "R-FLOW", "R-FLOW|instantiation-comparison|%s" % f.short, f.loc(), ok,
+        obs.append(Ob(clause, "R-FLOW", "R-FLOW|instantiation-comparison|%s" % q.split(":")[1], f.loc(), ok,
                       "%s compares against a value that flows from Shaper._instantiation_property (`%s`)" % (f.short, norm(hit[1]) if hit else "")
-                      if ok else "%s no longer compares against the configured instantiation property" % f.short))
+                      if ok else "%s no longer compares against the configured instantiation property" % q.split(":")[1]))
     return obs
 
 
